@@ -99,7 +99,11 @@ CHECKS = {
                  "exactly one update), updateRec_fuel_enough (the dependency walk never runs out of fuel), final_times "
                  "(the loop ends only when no time component is running), update_time_strict_mono, lifecycle_order / "
                  "lifecycle_ends_finalized (the call order projects to initialize connect+ validate update* finalize per "
-                 "component and passes every status check), adapters_finalized_once. Tied to schedule.py / "
+                 "component and passes every status check), adapters_finalized_once; on the code regenerated from "
+                 "sdk/component.py and schedule.py (Component.initialize/connect/validate/update/finalize, _check_status and "
+                 "its call sites with their literal status lists): tr_site_* (= the status automaton lcStep), "
+                 "code_lifecycle_run, code_failed_hook_raises; the translation is validated exhaustively (every status x "
+                 "every hook behaviour) on the real methods, Composition.__init__ and _finalize_components. Tied to schedule.py / "
                  "sdk/component.py by the update-sequence correspondence and a life-cycle oracle on real runs (incl. "
                  "adapters that fan out to several inputs)."),
         "design_ref": "5/C03",
